@@ -33,6 +33,7 @@ SHARDS = {"quick": 6, "thorough": 16}
 MIN_REACH = {
     "points_selected": {"quick": 2500, "thorough": 60000},
     "sweeps_of_a_thousand_and_more_settings": {"quick": 3, "thorough": 8},
+    "positional_cases_named_by_the_function_signature": {"quick": 10, "thorough": 200},
     "df_rows_checked": {"quick": 400, "thorough": 5000},
     "calls_logged": {"quick": 3000, "thorough": 30000},
     "second_runs_on_same_runner": {"quick": 15, "thorough": 300},
@@ -361,6 +362,15 @@ def run_case(ctx, case):
                 cases_arg.append({k: c[k] for k in ks})
             fn_args = None if rs % 2 else tuple(names)
         combos_arg = gens.spell_combos(sub, "dict") if sub else None
+        allnames_ = list(names) + list(full_kwargs_extra)
+        if (case["case_spelling"] == "tuple" and len(names) >= 2 and rs % 3 != 0 and not sub and not run_constants
+                and all(isinstance(a, str) and a.isidentifier() for a in allnames_) and len(set(allnames_)) == len(allnames_)):
+            # the names of the positional cases are NOT given: they are read off the function - a plain def, one whose last
+            # case argument (and all after it) is keyword-only, or a functools.wraps-decorated one
+            fn = probe.make_fn(allnames_, kind=kind, loglist=loglist, name="labelled_probe",
+                               kwonly=(len(allnames_) - len(names) + 1) if rs % 2 else 0, wrapped=rs % 4 >= 2)
+            fn_args = None
+            ctx.count("positional_cases_named_by_the_function_signature")
     else:
         combos_arg = gens.spell_combos(combos, case["combo_spelling"])
 
